@@ -365,7 +365,8 @@ impl Qcow2Header {
             let end = offset
                 .checked_add(length as u64)
                 .ok_or("Backing file name offset is invalid (too high)")?;
-            if end >= cluster_size {
+            // the name may end with the first cluster
+            if end > cluster_size {
                 return Err("Backing file name offset is invalid (too high)".into());
             }
 
